@@ -133,6 +133,30 @@ circular_step!(c8_1_8, 8, 1, 8, t14_base, t14_write_step, t14_take_step, t14_clo
 circular_step!(c16_4_8, 16, 4, 8, t14_base, t14_write_step, t14_take_step, t14_close_step);
 circular_step!(c12_3_6, 12, 3, 6, t14_base, t14_write_step, t14_take_step, t14_close_step);
 
+// writing a `Serializable` message (the path OrderingSender uses) stores exactly its wire encoding
+harness! {
+    #[kani::unwind(10)]
+    fn q14_write_serializable_message() {
+        use crate::ff::Fp32BitPrime;
+        let read: usize = kani::any();
+        let len_msgs: usize = kani::any();
+        kani::assume(read < 16 && read % 4 == 0 && len_msgs <= 1);
+        let write = (read + 4 * len_msgs) % 16;
+        let data: [u8; 8] = kani::any();
+        let mut b = CircularBuf { write, read, read_size: 4, write_size: 4, closed: false, data: data.to_vec() };
+        let v: u32 = kani::any();
+        kani::assume(v < 4_294_967_291);
+        let m: Fp32BitPrime = unsafe { std::mem::transmute(v) };
+        b.next().write(&m);
+        assert!(b.len() == 4 * len_msgs + 4);
+        let k: usize = kani::any();
+        kani::assume(k < 4);
+        assert!(b.data[(write % 8) + k] == v.to_le_bytes()[k], "the message's wire encoding is what is queued");
+        kani::cover!(write % 8 == 4);
+        std::mem::forget(b);
+    }
+}
+
 // native replay slot (cargo kani playback): the driver points IPA_VERIF_REPLAY_DIR at a directory
 // holding one file per hook; the generated test calls the harness by its path relative to this module.
 #[cfg(test)]
